@@ -33,6 +33,8 @@ type Contract struct {
 	Claims     []Clause // proved like ensures, never assumed by callers
 	Modifies   []Clause
 	PanicsWhen []Clause
+	Applies    []Clause // lemma applications at return: name(args) evaluated over the locals at return
+	Reveal     []string // opaque spec functions whose definition is made available to this function's queries
 	Loops      map[int]*LoopSpec
 	Inline     bool
 	Trusted    bool
@@ -54,6 +56,8 @@ type Lemma struct {
 	Vars   []LemmaVar
 	Assume []Clause
 	Prove  []Clause
+	Reveal []string
+	Applies []Clause
 	File   string
 	Line   int
 }
@@ -65,7 +69,7 @@ type ContractFile struct {
 }
 
 var clauseKeywords = map[string]bool{"requires": true, "ensures": true, "claims": true, "modifies": true, "panics_when": true, "loop": true,
-	"inline": true, "trusted": true, "nobody": true, "var": true, "assume": true, "prove": true, "props": true}
+	"inline": true, "trusted": true, "nobody": true, "var": true, "assume": true, "prove": true, "props": true, "apply": true, "reveal": true}
 
 func parseContractFile(path, pkgPath string) (*ContractFile, error) {
 	data, err := os.ReadFile(path)
@@ -188,6 +192,11 @@ func parseContractFile(path, pkgPath string) (*ContractFile, error) {
 				addClause(&lem.Assume, rest, ln+1)
 			case "prove":
 				addClause(&lem.Prove, rest, ln+1)
+			case "reveal":
+				lem.Reveal = append(lem.Reveal, fields[1:]...)
+				curSlot = nil
+			case "apply":
+				addClause(&lem.Applies, rest, ln+1)
 			default:
 				return nil, fmt.Errorf("%s:%d: %q not allowed in lemma", path, ln+1, kw)
 			}
@@ -202,6 +211,11 @@ func parseContractFile(path, pkgPath string) (*ContractFile, error) {
 			addClause(&cur.Ensures, rest, ln+1)
 		case "panics_when":
 			addClause(&cur.PanicsWhen, rest, ln+1)
+		case "apply":
+			addClause(&cur.Applies, rest, ln+1)
+		case "reveal":
+			cur.Reveal = append(cur.Reveal, fields[1:]...)
+			curSlot = nil
 		case "modifies":
 			for _, part := range splitTop(rest) {
 				addClause(&cur.Modifies, part, ln+1)
